@@ -155,6 +155,8 @@ func jsonAddKeyElements(s Entry, dict map[string]any) {
 	parentSchema, levelsUp := s.GetFirstAncestorWithSchema()
 	// from the parent we get the keys as slice
 	schemaKeys := parentSchema.GetSchemaKeys()
+	// the key levels of the tree follow the alphabetical order of the key names (see utils.ToStrings)
+	slices.Sort(schemaKeys)
 	var treeElem Entry = s
 	// the keys do match the levels up in the tree in reverse order
 	// hence we init i with levelUp and count down
